@@ -23,10 +23,12 @@ import (
 	"encoding/hex"
 	"fmt"
 	"io"
+	"io/ioutil"
 	"net"
 	"net/url"
 	"sync"
 	"sync/atomic"
+	"time"
 
 	"github.com/google/martian/v3/log"
 	"golang.org/x/net/http2"
@@ -89,9 +91,20 @@ func (c *Config) Proxy(closing chan bool, cc io.ReadWriter, url *url.URL) error 
 	// watched from here on, so that it also ends the wait for the client's connection preface.
 	stop := make(chan bool)
 	var stopOnce sync.Once
+	// drained is set when a side ended in good order and everything it had sent has been written
+	// to the other side: the connections are then closed without haste (see lingerClose), so that
+	// what was written last is not thrown away by a reset.
+	var drained int32
 	halt := func() {
 		stopOnce.Do(func() {
 			close(stop)
+			if atomic.LoadInt32(&drained) != 0 {
+				lingerClose(sc)
+				if c, ok := cc.(io.Closer); ok {
+					lingerClose(c)
+				}
+				return
+			}
 			sc.Close()
 			if c, ok := cc.(io.Closer); ok {
 				c.Close()
@@ -163,7 +176,9 @@ func (c *Config) Proxy(closing chan bool, cc io.ReadWriter, url *url.URL) error 
 		}
 		// The client has ended in good order: what it sent is still delivered to the server.
 		cw.end()
-		cToS.drain(stop, drainTimeout)
+		if cToS.drain(stop, drainTimeout) {
+			atomic.StoreInt32(&drained, 1)
+		}
 	}()
 	go func() { // Forwards frames from server to client.
 		defer wg.Done()
@@ -174,11 +189,36 @@ func (c *Config) Proxy(closing chan bool, cc io.ReadWriter, url *url.URL) error 
 		}
 		// The server has ended in good order: what it sent is still delivered to the client.
 		sw.end()
-		sToC.drain(stop, drainTimeout)
+		if sToC.drain(stop, drainTimeout) {
+			atomic.StoreInt32(&drained, 1)
+		}
 	}()
 	wg.Wait()
 	close(readersDone)
 	return nil
+}
+
+// lingerTimeout bounds how long a connection that is being closed after a drain is still read.
+const lingerTimeout = 2 * time.Second
+
+// lingerClose closes a connection without destroying what was just written to it. Closing a TCP
+// socket while the peer is still sending (a WINDOW_UPDATE for what it is reading, a PING) makes
+// the kernel answer with a reset and discard the data that has not been delivered yet - the tail
+// of the stream that was drained. So the write side is shut down first and input is read and
+// thrown away until the peer closes its side too or lingerTimeout has passed.
+func lingerClose(c io.Closer) {
+	type halfCloser interface {
+		CloseWrite() error
+		SetReadDeadline(time.Time) error
+		io.Reader
+	}
+	if hc, ok := c.(halfCloser); ok {
+		if err := hc.CloseWrite(); err == nil {
+			hc.SetReadDeadline(time.Now().Add(lingerTimeout))
+			io.Copy(ioutil.Discard, hc)
+		}
+	}
+	c.Close()
 }
 
 // endableWriter writes to w until end is called; from then on it swallows what it is given.
